@@ -10,16 +10,29 @@
 //!   `N:<ctx><n>` — the noise statement `n` 1000 times in a loop at top level / inside an include /
 //!   a macro / a block / an include inside a macro (`ctx` = t, i, m, b, x),
 //!   `S:<n>:<v>` — chain of `n` nested `super()` calls, `L:<d>:<v>` — recursive `for` loop over
-//!   data nested `d` deep;
+//!   data nested `d` deep, `X:<edges>` — mixed cycle over nodes that exist both as macro `xm<i>` and
+//!   as block `xb<i>` of one template; the edge kind says how node `i` reaches node `i+1`: lower
+//!   case = as a block, upper case = as a macro, directly or through Rust callbacks (a function /
+//!   filter / test / object implemented in Rust that calls `State::render_block`,
+//!   `render_block_to_write`, `call_macro`, `Value::call`, also through `State::apply_filter`,
+//!   `perform_test` and the builtin `map` / `select`);
 //! * limit — `Environment::set_recursion_limit`;
 //! * budget — `0`: the recursion is unbounded; `N>0`: the step is taken `N` times, then the
 //!   program terminates by itself (`tick()` turns false);
-//! * thread — `main` (the child's main thread) or `t2m` (`stack_size(2 << 20)`).
+//! * thread — `main` (the child's main thread) or `t2m` (`stack_size(2 << 20)`), followed by
+//!   `+<token>`s: an entry point (`clone`, `write`, `captured`, `str`, `state`, `capcall`, `caprb`),
+//!   `r<kind>` = kind of the root context value, `empty` = `Environment::empty()` (with the few
+//!   builtins the shapes use added by hand) instead of `Environment::new()`, `deflimit` = the limit
+//!   is NOT configured (the environment's default applies; the limit field must then be 500),
+//!   `dbg` = `set_debug` flipped against the build's default.
 //!
 //! Every case runs the REAL engine in a child process (re-exec of this binary, `batch` mode), so
 //! a native stack overflow is observed as the child's death by signal.  Result line:
 //!
-//!   <case>\t<status>\t<hw_depth>\t<hw_native>\t<top kind>\t<root kind>\t<bytes>\t<overhead>\t<drift>
+//!   <case>\t<status>\t<hw_depth>\t<hw_native>\t<top kind>\t<root kind>\t<bytes>\t<overhead>\t<drift>\t<hw_hops>
+//!
+//! hw_hops: high-water mark of the re-entering Rust callbacks of this harness that were active at
+//! the same time (counted by the callbacks themselves).
 //!
 //! drift: `-`, or `<construct>:<before>-><after>` for the first completed nested construct around
 //! which `Context::depth()` (read through `verif_hooks::recursion::depth_of`) was not restored.
@@ -69,8 +82,76 @@ fn tick() -> bool {
     }
 }
 
+thread_local! {
+    static HOPS: std::cell::Cell<usize> = const { std::cell::Cell::new(0) };
+    static HOPS_HW: std::cell::Cell<usize> = const { std::cell::Cell::new(0) };
+}
+
+/// one re-entering Rust callback on the native stack
+struct Hop;
+impl Hop {
+    fn enter() -> Hop {
+        let n = HOPS.with(|h| {
+            h.set(h.get() + 1);
+            h.get()
+        });
+        HOPS_HW.with(|h| h.set(h.get().max(n)));
+        Hop
+    }
+}
+impl Drop for Hop {
+    fn drop(&mut self) {
+        HOPS.with(|h| h.set(h.get().saturating_sub(1)));
+    }
+}
+
 fn rb(state: &mut State, name: String) -> Result<Value, Error> {
+    let _hop = Hop::enter();
     state.render_block(&name).map(Value::from_safe_string)
+}
+
+/// `State::render_block_to_write` from a function
+fn rbw(state: &mut State, name: String) -> Result<Value, Error> {
+    let _hop = Hop::enter();
+    let mut buf = Vec::<u8>::new();
+    state.render_block_to_write(&name, &mut buf)?;
+    Ok(Value::from_safe_string(String::from_utf8_lossy(&buf).into_owned()))
+}
+
+/// a filter implemented in Rust that renders a block
+fn viarb(state: &mut State, _v: Value, name: String) -> Result<Value, Error> {
+    let _hop = Hop::enter();
+    state.render_block(&name).map(Value::from_safe_string)
+}
+
+/// a test implemented in Rust that renders a block
+fn viarbt(state: &mut State, _v: Value, name: String) -> Result<bool, Error> {
+    let _hop = Hop::enter();
+    state.render_block(&name).map(|_| true)
+}
+
+/// an object implemented in Rust whose `call` and `call_method` render a block
+#[derive(Debug)]
+struct RenderObj;
+impl minijinja::value::Object for RenderObj {
+    fn call(self: &std::sync::Arc<Self>, state: &mut State<'_, '_>, args: &[Value]) -> Result<Value, Error> {
+        let _hop = Hop::enter();
+        let name = args.first().and_then(|v| v.as_str().map(|s| s.to_string())).unwrap_or_default();
+        state.render_block(&name).map(Value::from_safe_string)
+    }
+    fn call_method(
+        self: &std::sync::Arc<Self>,
+        state: &mut State<'_, '_>,
+        method: &str,
+        args: &[Value],
+    ) -> Result<Value, Error> {
+        if method != "go" {
+            return Err(Error::from(ErrorKind::UnknownMethod));
+        }
+        let _hop = Hop::enter();
+        let name = args.first().and_then(|v| v.as_str().map(|s| s.to_string())).unwrap_or_default();
+        state.render_block(&name).map(Value::from_safe_string)
+    }
 }
 
 static DRIFT: Mutex<Option<String>> = Mutex::new(None);
@@ -116,11 +197,13 @@ fn chk(kind: String, before: usize, after: usize) -> String {
 
 /// renders a block and swallows its error
 fn tryb(state: &mut State, name: String) -> String {
+    let _hop = Hop::enter();
     state.render_block(&name).unwrap_or_default()
 }
 
 /// `State::call_macro` from a function
 fn cmf(state: &mut State, name: String) -> Result<Value, Error> {
+    let _hop = Hop::enter();
     state.call_macro(&name, &[]).map(Value::from_safe_string)
 }
 
@@ -133,31 +216,37 @@ fn uq() -> usize {
 
 /// `Value::call` on a macro object from a Rust function
 fn callv(state: &mut State, f: Value) -> Result<Value, Error> {
+    let _hop = Hop::enter();
     f.call(state, &[])
 }
 
 /// `Value::call_method` from a Rust function (falls back to calling the attribute)
 fn callmeth(state: &mut State, obj: Value, name: String) -> Result<Value, Error> {
+    let _hop = Hop::enter();
     obj.call_method(state, &name, &[])
 }
 
 /// a filter implemented in Rust that calls a macro through `State::call_macro`
 fn viaf(state: &mut State, _v: Value, name: String) -> Result<Value, Error> {
+    let _hop = Hop::enter();
     state.call_macro(&name, &[]).map(Value::from_safe_string)
 }
 
 /// a test implemented in Rust that calls a macro through `State::call_macro`
 fn viat(state: &mut State, _v: Value, name: String) -> Result<bool, Error> {
+    let _hop = Hop::enter();
     state.call_macro(&name, &[]).map(|_| true)
 }
 
 /// `State::apply_filter` from a Rust function
 fn af(state: &mut State, fname: String, arg: String) -> Result<Value, Error> {
+    let _hop = Hop::enter();
     state.apply_filter(&fname, &[Value::from(1), Value::from(arg)])
 }
 
 /// `State::perform_test` from a Rust function
 fn pt(state: &mut State, tname: String, arg: String) -> Result<bool, Error> {
+    let _hop = Hop::enter();
     state.perform_test(&tname, &[Value::from(1), Value::from(arg)])
 }
 
@@ -219,6 +308,8 @@ fn noise_name(n: char) -> &'static str {
         'f' => "lazy-load-deep-stmts",
         'g' => "swallowed-lazy-syntax-error",
         'h' => "swallowed-lazy-parser-limit",
+        'i' => "super",
+        'j' => "captured-super",
         _ => "none",
     }
 }
@@ -243,6 +334,9 @@ fn noise_src(n: char) -> String {
         'f' => "{% include \"deepb\" ~ uq() %}",
         'g' => "{{ tryb(\"synblk\") }}",
         'h' => "{{ tryb(\"tooblk\") }}",
+        // only inside a block that has a parent (context `s` of the `N` family)
+        'i' => "{{ super() }}",
+        'j' => "{% set sq = super() %}{{ sq }}",
         _ => return String::new(),
     };
     format!("{{% set dq0 = dp() %}}{src}{{{{ chk(\"{}\", dq0, dp()) }}}}", noise_name(n))
@@ -282,6 +376,7 @@ fn body(e: &Edge, step: &str) -> String {
         1 => s.push_str("{% set loc = \"ab\"|upper|length %}{{ loc }}"),
         2 => s.push_str("{% filter upper %}"),
         3 => s.push_str("{% set cap %}{{ [1, 2, 3]|map(\"string\")|join(\",\") }}"),
+        4 => s.push_str("{% autoescape true %}{{ \"<\" }}"),
         _ => {}
     }
     for i in 0..e.w {
@@ -303,6 +398,7 @@ fn body(e: &Edge, step: &str) -> String {
     match e.x {
         2 => s.push_str("{% endfilter %}"),
         3 => s.push_str("{% endset %}{{ cap }}"),
+        4 => s.push_str("{% endautoescape %}"),
         _ => {}
     }
     s
@@ -316,11 +412,11 @@ fn loop2(inner: &str) -> String {
 fn build(shape: &str) -> Result<(BTreeMap<String, String>, String), String> {
     let (mut t, entry) = build_inner(shape)?;
     let fam = &shape[..1];
-    if matches!(fam, "T" | "M" | "B") {
+    if matches!(fam, "T" | "M" | "B" | "X") {
         // the blocks the noise statements render must be in every block table that can be current
         let extends = t.contains_key("base");
         for (name, src) in t.iter_mut() {
-            if extends && name == "main" {
+            if (extends && name == "main") || name == "tbase" {
                 continue;
             }
             *src = format!("{DEFS}{src}");
@@ -329,6 +425,7 @@ fn build(shape: &str) -> Result<(BTreeMap<String, String>, String), String> {
     t.insert("tiny".into(), "t".into());
     t.insert("tinymod".into(), "{% macro f() %}f{% endmacro %}".into());
     t.insert("boom".into(), "{{ fail() }}".into());
+    t.insert("applylib".into(), "{% macro applym(f) %}{{ f() }}{% endmacro %}".into());
     Ok((t, entry))
 }
 
@@ -364,6 +461,11 @@ fn build_inner(shape: &str) -> Result<(BTreeMap<String, String>, String), String
                     t.insert("main".into(), "{% macro w() %}{% include \"inner\" %}{% endmacro %}{{ w() }}".into());
                     t.insert("inner".into(), format!("{DEFS}{inner}"));
                 }
+                // inside a block that overrides a parent's block: `super()` is available
+                's' => {
+                    t.insert("main".into(), format!("{{% extends \"nbase\" %}}{{% block blk %}}{inner}{{% endblock %}}"));
+                    t.insert("nbase".into(), format!("{DEFS}{{% block blk %}}p{{% endblock %}}"));
+                }
                 _ => return Err("bad N ctx".into()),
             }
             Ok((t, "main".into()))
@@ -377,6 +479,14 @@ fn build_inner(shape: &str) -> Result<(BTreeMap<String, String>, String), String
                 let src = match e.kind {
                     'I' => body(e, &inc),
                     'P' => body(e, &format!("{{% import \"n{j}\" as q %}}")),
+                    // a list of candidates whose first does not exist; an optional include of a
+                    // template that exists; both; from-import
+                    'X' => body(e, &format!("{{% include [\"nope\", \"n{j}\"] %}}")),
+                    'Z' => body(e, &format!("{{% include \"n{j}\" ignore missing %}}")),
+                    'V' => body(e, &format!("{{% include [\"nope1\", \"n{j}\", \"nope2\"] ignore missing %}}")),
+                    'F' => body(e, &format!("{{% from \"n{j}\" import zzz %}}")),
+                    // the node extends a parent and does its work inside the block it overrides
+                    'E' => format!("{{% extends \"tbase\" %}}{{% block tb %}}{}{{% endblock %}}", body(e, &inc)),
                     'W' => format!("{{% macro w() %}}{inc}{{% endmacro %}}{}", body(e, "{{ w() }}")),
                     'K' => format!(
                         "{{% macro k() %}}[{{{{ caller() }}}}]{{% endmacro %}}{}",
@@ -392,12 +502,18 @@ fn build_inner(shape: &str) -> Result<(BTreeMap<String, String>, String), String
                 };
                 t.insert(format!("n{i}"), src);
             }
+            if edges.iter().any(|e| e.kind == 'E') {
+                t.insert("tbase".into(), "[{% block tb %}{% endblock %}]".into());
+            }
             Ok((t, "n0".into()))
         }
         "M" => {
             let edges = parse_edges(spec);
             let n = edges.len();
-            let mut main = String::from("{% macro cw() %}<{{ caller() }}>{% endmacro %}");
+            // the higher-order macro is imported only where it is used: the import statement is
+            // charged like an include while it runs
+            let import = if edges.iter().any(|e| e.kind == 'I') { "{% from \"applylib\" import applym %}" } else { "" };
+            let mut main = format!("{import}{{% macro cw() %}}<{{{{ caller() }}}}>{{% endmacro %}}");
             for (i, e) in edges.iter().enumerate() {
                 let j = (i + 1) % n;
                 let call = format!("{{{{ m{j}() }}}}");
@@ -418,6 +534,8 @@ fn build_inner(shape: &str) -> Result<(BTreeMap<String, String>, String), String
                     'U' => body(e, &format!("{{% if false %}}{{{{ m{j} }}}}{{% endif %}}{{{{ pt(\"viat\", \"m{j}\") }}}}")),
                     'D' => body(e, &format!("{{% if false %}}{{{{ m{j} }}}}{{% endif %}}{{% filter viaf(\"m{j}\") %}}x{{% endfilter %}}")),
                     'N' => body(e, &format!("{{% call cw() %}}{{% call cw() %}}{call}{{% endcall %}}{{% endcall %}}")),
+                    // a macro imported from another template that calls the macro it is handed
+                    'I' => body(e, &format!("{{{{ applym(m{j}) }}}}")),
                     'J' => {
                         t.insert(format!("back{j}"), call.clone());
                         body(e, &format!("{{% if false %}}{{{{ m{j} }}}}{{% endif %}}{{% include \"back{j}\" %}}"))
@@ -475,6 +593,45 @@ fn build_inner(shape: &str) -> Result<(BTreeMap<String, String>, String), String
             }
             Ok((t, "main".into()))
         }
+        "X" => {
+            let edges = parse_edges(spec);
+            let n = edges.len();
+            let mut macros = String::from("{% macro cw() %}<{{ caller() }}>{% endmacro %}");
+            let mut defs = String::new();
+            // every macro encloses all of them: a block rendered inside a macro resolves names
+            // through the macro's closure
+            let refs: String = (0..n).map(|q| format!("{{{{ xm{q} }}}}")).collect::<String>() + "{{ cw }}";
+            for (i, e) in edges.iter().enumerate() {
+                let j = (i + 1) % n;
+                let step = match e.kind {
+                    'b' => format!("{{{{ self.xb{j}() }}}}"),
+                    'r' => format!("{{{{ rb(\"xb{j}\") }}}}"),
+                    'w' => format!("{{{{ rbw(\"xb{j}\") }}}}"),
+                    'f' => format!("{{{{ 1|viarb(\"xb{j}\") }}}}"),
+                    't' => format!("{{{{ 1 is viarbt(\"xb{j}\") }}}}"),
+                    'g' => format!("{{{{ af(\"viarb\", \"xb{j}\") }}}}"),
+                    'u' => format!("{{{{ pt(\"viarbt\", \"xb{j}\") }}}}"),
+                    'p' => format!("{{{{ [1]|map(\"viarb\", \"xb{j}\")|join }}}}"),
+                    's' => format!("{{{{ [1]|select(\"viarbt\", \"xb{j}\")|list|length }}}}"),
+                    'o' => format!("{{{{ robj(\"xb{j}\") }}}}"),
+                    'h' => format!("{{{{ robj.go(\"xb{j}\") }}}}"),
+                    'M' => format!("{{{{ xm{j}() }}}}"),
+                    'Q' => format!("{{{{ cmf(\"xm{j}\") }}}}"),
+                    'O' => format!("{{{{ callv(xm{j}) }}}}"),
+                    'F' => format!("{{{{ 1|viaf(\"xm{j}\") }}}}"),
+                    'T' => format!("{{{{ 1 is viat(\"xm{j}\") }}}}"),
+                    'G' => format!("{{{{ af(\"viaf\", \"xm{j}\") }}}}"),
+                    'P' => format!("{{{{ [1]|map(\"viaf\", \"xm{j}\")|join }}}}"),
+                    'C' => format!("{{% call cw() %}}{{{{ xm{j}() }}}}{{% endcall %}}"),
+                    k => return Err(format!("bad X edge {k}")),
+                };
+                let b = body(e, &step);
+                macros.push_str(&format!("{{% macro xm{i}() %}}{{% if false %}}{refs}{{% endif %}}{b}{{% endmacro %}}"));
+                defs.push_str(&format!("{{% block xb{i} %}}{b}{{% endblock %}}"));
+            }
+            t.insert("main".into(), format!("{macros}{{% if false %}}{defs}{{% endif %}}{{{{ self.xb0() }}}}"));
+            Ok((t, "main".into()))
+        }
         "S" => {
             let (n, v) = spec.split_once(':').ok_or("bad S spec")?;
             let n: usize = n.parse().map_err(|_| "bad n")?;
@@ -485,7 +642,9 @@ fn build_inner(shape: &str) -> Result<(BTreeMap<String, String>, String), String
                     format!("{{% extends \"c{}\" %}}{{% block a %}}[{sup}]{{% endblock %}}", i + 1),
                 );
             }
-            t.insert(format!("c{n}"), "{% block a %}END{% endblock %}".into());
+            // the innermost block probes the stack pointer (`tick`), so that builds without hooks
+            // measure the chain as well
+            t.insert(format!("c{n}"), "{% block a %}END{% if tick() %}{% endif %}{% endblock %}".into());
             Ok((t, "c0".into()))
         }
         "L" => {
@@ -532,10 +691,37 @@ fn run_here(shape: &str, limit: usize, budget: i64, mode: &str) -> String {
     let top = &top_marker as *const u8 as usize;
     let (templates, entry) = match build(shape) {
         Ok(x) => x,
-        Err(e) => return format!("bad-case:{e}\t0\t0\t-\t-\t0\t0\t-"),
+        Err(e) => return format!("bad-case:{e}\t0\t0\t-\t-\t0\t0\t-\t0"),
     };
-    let mut env = Environment::new();
-    env.set_recursion_limit(limit);
+    let toks: Vec<&str> = mode.split('+').filter(|t| !t.is_empty()).collect();
+    let mut env = if toks.contains(&"empty") {
+        // `Environment::empty()`: no builtins; the few the shapes use are added by hand
+        let mut env = Environment::empty();
+        env.add_filter("upper", minijinja::filters::upper);
+        env.add_filter("length", minijinja::filters::length);
+        env.add_filter("map", minijinja::filters::map);
+        env.add_filter("select", minijinja::filters::select);
+        env.add_filter("join", minijinja::filters::join);
+        env.add_filter("list", minijinja::filters::list);
+        env.add_filter("string", minijinja::filters::string);
+        env.add_function("range", minijinja::functions::range);
+        env.add_function("namespace", minijinja::functions::namespace);
+        env
+    } else {
+        Environment::new()
+    };
+    if !toks.contains(&"deflimit") {
+        env.set_recursion_limit(limit);
+    }
+    if toks.contains(&"dbg") {
+        // the other setting of `Environment::set_debug` than the build's default: with it the error
+        // raised at the bottom of the recursion carries a rendering of the variables in scope
+        env.set_debug(!cfg!(debug_assertions));
+    }
+    env.add_function("rbw", rbw);
+    env.add_filter("viarb", viarb);
+    env.add_test("viarbt", viarbt);
+    env.add_global("robj", Value::from_object(RenderObj));
     env.add_function("tick", tick);
     env.add_function("rb", rb);
     env.add_function("dp", dp);
@@ -556,7 +742,7 @@ fn run_here(shape: &str, limit: usize, budget: i64, mode: &str) -> String {
     for tok in mode.split('+').filter(|t| !t.is_empty()) {
         if tok.len() == 2 && tok.starts_with('r') {
             root_kind = tok.chars().nth(1).unwrap();
-        } else {
+        } else if tok != "empty" && tok != "deflimit" && tok != "dbg" {
             entry_mode = tok;
         }
     }
@@ -580,6 +766,8 @@ fn run_here(shape: &str, limit: usize, budget: i64, mode: &str) -> String {
     recursion::reset();
     *DRIFT.lock().unwrap() = None;
     UQ.store(0, Ordering::Relaxed);
+    HOPS.with(|h| h.set(0));
+    HOPS_HW.with(|h| h.set(0));
     let r = guarded(|| {
         // the root context of the render: its KIND must not matter for the depth accounting
         let ctx = match root_kind {
@@ -657,13 +845,14 @@ fn run_here(shape: &str, limit: usize, budget: i64, mode: &str) -> String {
     // dropping deeply nested data must not be what overflows: done here, inside the case
     drop(tree);
     let drift = DRIFT.lock().unwrap().take().unwrap_or_else(|| "-".into());
-    format!("{status}\t{}\t{}\t{topk}\t{rootk}\t{bytes}\t{over}\t{drift}", m.depth_high_water, m.native_high_water)
+    let hops = HOPS_HW.with(|h| h.get());
+    format!("{status}\t{}\t{}\t{topk}\t{rootk}\t{bytes}\t{over}\t{drift}\t{hops}", m.depth_high_water, m.native_high_water)
 }
 
 fn run_case(case: &str) -> String {
     let f: Vec<&str> = case.split(' ').collect();
     if f.len() != 4 {
-        return "bad-case:fields\t0\t0\t-\t-\t0\t0\t-".into();
+        return "bad-case:fields\t0\t0\t-\t-\t0\t0\t-\t0".into();
     }
     let shape = f[0].to_string();
     let limit: usize = f[1].parse().unwrap_or(0);
@@ -677,8 +866,8 @@ fn run_case(case: &str) -> String {
             .spawn(move || run_here(&shape, limit, budget, &mode))
             .unwrap()
             .join()
-            .unwrap_or_else(|_| "panic:thread\t0\t0\t-\t-\t0\t0\t-".into()),
-        _ => "bad-case:thread\t0\t0\t-\t-\t0\t0\t-".into(),
+            .unwrap_or_else(|_| "panic:thread\t0\t0\t-\t-\t0\t0\t-\t0".into()),
+        _ => "bad-case:thread\t0\t0\t-\t-\t0\t0\t-\t0".into(),
     }
 }
 
@@ -731,7 +920,7 @@ fn run_in_children(cases: &[String]) -> Vec<String> {
                         None => format!("exit:{}", status.code().unwrap_or(-1)),
                     };
                     let case = &part[results.len()];
-                    results.push(format!("{case}\t{what}\t0\t0\t-\t-\t0\t0\t-"));
+                    results.push(format!("{case}\t{what}\t0\t0\t-\t-\t0\t0\t-\t0"));
                 }
             }
             results
@@ -746,8 +935,9 @@ fn run_in_children(cases: &[String]) -> Vec<String> {
 
 // ------------------------------------------------------------------------------------ generation
 
-const T_KINDS: [char; 7] = ['I', 'P', 'W', 'K', 'B', 'L', 'Y'];
-const M_KINDS: [char; 14] = ['M', 'A', 'C', 'L', 'J', 'Q', 'O', 'H', 'F', 'E', 'G', 'U', 'D', 'N'];
+const T_KINDS: [char; 12] = ['I', 'P', 'W', 'K', 'B', 'L', 'Y', 'X', 'Z', 'V', 'F', 'E'];
+const X_KINDS: [char; 19] = ['b', 'r', 'w', 'f', 't', 'g', 'u', 'p', 's', 'o', 'h', 'M', 'Q', 'O', 'F', 'T', 'G', 'P', 'C'];
+const M_KINDS: [char; 15] = ['M', 'A', 'C', 'L', 'J', 'Q', 'O', 'H', 'F', 'E', 'G', 'U', 'D', 'N', 'I'];
 const B_KINDS: [char; 6] = ['B', 'V', 'R', 'M', 'L', 'S'];
 
 fn edge_str(kind: char, rng: &mut Rng, plain: bool) -> String {
@@ -756,13 +946,13 @@ fn edge_str(kind: char, rng: &mut Rng, plain: bool) -> String {
     if plain {
         format!("{kind}000{n}")
     } else {
-        format!("{kind}{}{}{}{n}", rng.below(3), rng.below(3), rng.below(4))
+        format!("{kind}{}{}{}{n}", rng.below(3), rng.below(3), rng.below(5))
     }
 }
 
 fn shapes(thorough: bool, rng: &mut Rng) -> Vec<String> {
     let mut v: Vec<String> = vec![];
-    let fams = [("T", &T_KINDS[..]), ("M", &M_KINDS[..]), ("B", &B_KINDS[..])];
+    let fams = [("T", &T_KINDS[..]), ("M", &M_KINDS[..]), ("B", &B_KINDS[..]), ("X", &X_KINDS[..])];
     // pure cycles of each edge kind (no extra work, no noise: the stack measurements), length 1 and 2
     for (fam, kinds) in fams {
         for k in kinds {
@@ -772,8 +962,13 @@ fn shapes(thorough: bool, rng: &mut Rng) -> Vec<String> {
     }
     // every edge kind with every depth-neutral noise statement on its frame
     for (fam, kinds) in fams {
-        for k in kinds {
-            for n in NOISE {
+        for (ki, k) in kinds.iter().enumerate() {
+            // the mixed family and the include variants take a rotating third of the statements
+            let sparse = fam == "X" || (fam == "T" && ['X', 'Z', 'V', 'F', 'E'].contains(k)) || (fam == "M" && *k == 'I');
+            for (ni, n) in NOISE.iter().enumerate() {
+                if sparse && (ni + ki) % 3 != 0 {
+                    continue;
+                }
                 v.push(format!("{fam}:{k}000{n}"));
             }
         }
@@ -785,9 +980,9 @@ fn shapes(thorough: bool, rng: &mut Rng) -> Vec<String> {
         }
     }
     // mixed cycles of length 2..4
-    let n_mixed = if thorough { 2700 } else { 42 };
+    let n_mixed = if thorough { 1800 } else { 60 };
     for i in 0..n_mixed {
-        let (fam, kinds) = fams[i % 3];
+        let (fam, kinds) = fams[i % 4];
         let len = 2 + rng.below(3) as usize;
         let es: Vec<String> = (0..len)
             .map(|_| {
@@ -815,10 +1010,21 @@ fn cases(tier: &str) -> Vec<String> {
     for (si, sh) in shapes.iter().enumerate() {
         // thorough: every shape at 500 and at a rotating subset of the other limits
         for (li, &limit) in limits.iter().enumerate() {
-            if thorough && limit != 500 && limit > 10 && (li + si) % 12 != 0 {
+            // (limit 100 stays for the pure cycles: with 500 it gives the two-limit stack slopes)
+            let plain = !sh.contains(',') && sh.ends_with("0000");
+            if thorough && limit != 500 && limit > 10 && (li + si) % 16 != 0 && !(plain && limit == 100) {
+                continue;
+            }
+            // one edge kind x one noise statement (the bulk of the shapes): no limit 1 (everything
+            // fails at once), the main thread only at the default limit, one terminating variant
+            let noisy = !sh.contains(',') && &sh[3..6] == "000" && !sh.ends_with('0');
+            if noisy && limit == 1 {
                 continue;
             }
             for th in ["main", "t2m"] {
+                if noisy && th == "main" && limit != 500 {
+                    continue;
+                }
                 out.push(format!("{sh} {limit} 0 {th}"));
             }
             // the kind of the root context is an axis of every stream
@@ -827,7 +1033,9 @@ fn cases(tier: &str) -> Vec<String> {
             // a terminating variant: budget below what the limit admits, and one near it
             let b1 = 1 + rng.below(3) as usize;
             let b2 = 1 + rng.below(limit as u64 / 2 + 2) as usize;
-            out.push(format!("{sh} {limit} {b1} t2m"));
+            if !noisy {
+                out.push(format!("{sh} {limit} {b1} t2m"));
+            }
             out.push(format!("{sh} {limit} {b2} t2m"));
         }
     }
@@ -852,6 +1060,25 @@ fn cases(tier: &str) -> Vec<String> {
             out.push(format!("{sh} 500 3 main+{mode}"));
         }
     }
+    // configuration: `Environment::empty()` instead of `Environment::new()`, and the limit left at
+    // the environment's default (not configured at all)
+    for sh in shapes.iter().filter(|s| !s.contains(',') && s.ends_with("0000")) {
+        out.push(format!("{sh} 500 0 t2m+deflimit"));
+        out.push(format!("{sh} 500 0 t2m+empty+deflimit"));
+        out.push(format!("{sh} 500 0 t2m+empty"));
+        out.push(format!("{sh} 100 0 main+empty"));
+        out.push(format!("{sh} 500 3 t2m+empty+deflimit"));
+        out.push(format!("{sh} 10 0 t2m+empty+clone"));
+        out.push(format!("{sh} 500 0 t2m+dbg"));
+    }
+    // finite recursions with more nested steps than the limit has units: every step is charged at
+    // least one unit, so none of them can complete
+    for sh in shapes.iter().filter(|s| !s.contains(',') && s.ends_with("0000")) {
+        for limit in [2usize, 10, 100] {
+            out.push(format!("{sh} {limit} {} t2m", limit + 1));
+            out.push(format!("{sh} {limit} {} t2m", 2 * limit + 3));
+        }
+    }
     // every root kind for every pure cycle; a macro / block called from Rust after a finished render
     for sh in shapes.iter().filter(|s| !s.contains(',') && s.ends_with("0000")) {
         for rk in ['u', 'x', 'o', 'e', 's'] {
@@ -859,6 +1086,9 @@ fn cases(tier: &str) -> Vec<String> {
                 out.push(format!("{sh} {limit} 0 t2m+r{rk}"));
             }
             out.push(format!("{sh} 500 0 t2m+captured+r{rk}"));
+            if sh.starts_with("X:") {
+                continue;
+            }
             if sh.starts_with("M:") {
                 out.push(format!("{sh} 100 0 t2m+capcall+r{rk}"));
                 out.push(format!("{sh} 500 0 t2m+capcall+r{rk}"));
@@ -875,6 +1105,13 @@ fn cases(tier: &str) -> Vec<String> {
             }
         }
         out.push(format!("B:{k}0000,{k}0000 500 0 main+state"));
+    }
+    // a completed super() (direct and captured) restores the depth: 1000 times in a loop
+    for n in ['i', 'j', '3', '6', '8', '9'] {
+        for &limit in &[2usize, 3, 10, 100, 500] {
+            out.push(format!("N:s{n} {limit} 0 t2m"));
+        }
+        out.push(format!("N:s{n} 500 0 main"));
     }
     // drift detection: every noise statement 1000 times in a loop, in every surrounding
     for ctx in ['t', 'i', 'm', 'b', 'x'] {
